@@ -36,6 +36,7 @@ def summarize(cases):
 
 def run_mode(ctx, mode, count, pid, collide=False, oracle=None):
     """corpus first, then seeded cases; model correspondence on all, [oracle] (default: reference map) judges the implementation"""
+    ctx.l2mode = mode
     corpus = l2common.corpus_cases(ctx, pid)
     cases = corpus + l2common.gen_cases(ctx, mode, count, ctx.seed)
     ctx.last_cases = cases
@@ -49,7 +50,8 @@ def run_mode(ctx, mode, count, pid, collide=False, oracle=None):
                     replies=[o["res"] for o in c["ops"][:12]]) for c in cases[:4]]
     return dict(evaluations=len(cases), distinct_nontrivial=len(nt), samples=samples, model_mismatches=mm, spec_violations=sm,
                 shards=ns, shards_ok=ok, dist=summarize(cases),
-                extra=dict(ops_replayed=sum(len(c["ops"]) for c in cases), corpus_cases=len(corpus)),
+                extra=dict(ops_replayed=sum(len(c["ops"]) for c in cases), corpus_cases=len(corpus),
+                           unreproducible_implementation_traces=getattr(ctx, "transient", [])),
                 rule="corpus histories first, then seeded histories of 20..100 operations (set with auto/explicit revision, delete, incr, "
                      "get, meta-get, forced flush, hint dump, restart with a subset of index files removed, GC range requests and passes "
                      "in gc modes) over 2..7 valid keys of one bucket; bucket count 1/16/256, data-file limit 1KB..default, hint split "
